@@ -64,12 +64,12 @@ def run(tier):
     infos = decode.to_python_model(dump)
     names = [z["name"] for z in dump["zones"]]          # registry order == index for the C++ side
     q = tier == "quick"
-    chosen = sorted(rng.sample(range(len(names)), 60)) if q else list(range(len(names)))
+    chosen = list(range(len(names)))    # every zone in both tiers (a defect may live in four zones on one day: seeded change C04h)
     sys.path.insert(0, str(REPO / "tools"))
     from zonedb.zone_specifier import ZoneSpecifier
     exe = build(VERIF / "native" / "localres.cpp", "fast")
-    grid_s = (86400 * 2 + 3600 * 7) if q else (6 * 3600 + 1800)
-    step = 5 if q else 1
+    grid_s = (86400 * 13 + 3600 * 7) if q else (6 * 3600 + 1800)
+    step = 10 if q else 1
     # ---- python answers + query file per shard
     work = vlib.scratch()
     shards = [chosen[i::N] for i in range(N) if chosen[i::N]]
@@ -167,7 +167,7 @@ def run(tier):
                 "Options: all 387 zones, the 8 combinations {13,14} x {optimized,basic finder} x {in-place,basic selector} against "
                 "the default at every transition +-1 s, 11 offsets around every year boundary (where the 13- and 14-month windows "
                 "differ), a grid, and local times around transitions and New Year. distinct = distinct (zone, transition) pairs." % (
-                    "60 seed-chosen zones" if q else "all 387 zones", grid_s, step),
+                    "all 387 zones", grid_s, step),
         "samples": samples[:6],
         "counters": tot,
     })
